@@ -217,11 +217,21 @@ def classify_u256(repo):
 
     def has_loop(b):
         return any(b.dominates(h, u) for u in b.reachable() for h in b.succ()[u])
+
+    def helper_callees(b):
+        out = set()
+        f0 = (b.rec.get("span") or {}).get("file")
+        for _, t in b.calls():
+            cb = F.bodies.get((t.get("fn") or {}).get("res_def") or (t.get("fn") or {}).get("def"))
+            if cb is not None and (cb.rec.get("span") or {}).get("file") == f0 and not F.is_exported(cb.rec["path"]):
+                out |= callee_names(cb)
+        return out
     roles = {
         "sub": lambda b, ins, cs: ins == ["&mut " + U256, "&" + U256, "&" + U256] and {"add_with_carry", "sub_with_borrow"} <= cs and not has_loop(b),
         "neg": lambda b, ins, cs: ins == ["&mut " + U256, "&" + U256] and {"is_zero", "sub_with_borrow"} <= cs and "add_with_carry" not in cs and not has_loop(b),
         "div2": lambda b, ins, cs: ins == ["&mut " + U256, "&" + U256] and ({"is_odd", "is_even"} & cs) and {"add_with_carry", "div2"} <= cs and not has_loop(b),
-        "invert": lambda b, ins, cs: ins == ["&mut " + U256, "&" + U256, "&" + U256] and has_loop(b) and ({"is_even", "is_odd"} & cs) and ({"div2"} & cs or {"is_one"} & cs),
+        # (the halving / subtracting steps may sit in private helpers of the same file: their callees count as the routine's own)
+        "invert": lambda b, ins, cs: ins == ["&mut " + U256, "&" + U256, "&" + U256] and has_loop(b) and ({"is_even", "is_odd"} & (cs | helper_callees(b))) and ({"div2"} & (cs | helper_callees(b)) or {"is_one"} & cs),
     }
     for role, (k, needs, reason) in CLOSED_II.items():
         cands = [b for b in methods if b.rec["path"] not in closed and roles[role](b, b.rec.get("inputs") or [], callee_names(b))]
